@@ -14,7 +14,7 @@ from checks.c02_cache import probe_order
 PROP = 'C03'
 LEVEL = 'exploration'
 SHARDS = {'quick': 6, 'thorough': 16}
-BUDGET_S = {'quick': 55, 'thorough': 540}
+BUDGET_S = {'quick': 150, 'thorough': 540}
 RULE = ('random programs (2-3 threads x 1-4 cache operations, 2-4 keys, max_size 1-3, LRI and LRU, '
         'with/without on_miss, cache pre-filled to capacity or not) run under a deterministic scheduler '
         'that can pre-empt at every bytecode boundary inside cacheutils: systematic single pre-emption '
@@ -290,8 +290,12 @@ def explore_case(ctx, case, label, r):
         tids = list(sc.event_tid)
         st.peak('max_events_per_run', N)
         case['budget'] = 40 * N + 5000
-        # (a) systematic single pre-emption
+        # (a) systematic single pre-emption (thorough: every event; quick: an evenly spread ~300 per start)
+        stride = 1 if ctx.thorough else max(1, (N * (n - 1)) // 300)
+        offset = r.randrange(stride)
         for k in range(1, N + 1):
+            if (k + offset) % stride:
+                continue
             for tgt in range(n):
                 if tgt == tids[k - 1]:
                     continue
@@ -310,7 +314,7 @@ def explore_case(ctx, case, label, r):
             pairs = [(k1, k2) for k1 in range(1, N) for k2 in range(k1 + 1, N + 1)]
             st.count('programs_with_exhaustive_double_preemption')
         else:
-            for _ in range(60 if ctx.thorough else 25):
+            for _ in range(60 if ctx.thorough else 10):
                 k1 = r.randint(1, max(1, N - 1))
                 pairs.append((k1, r.randint(k1 + 1, N + 40)))
         for k1, k2 in pairs:
@@ -326,7 +330,7 @@ def explore_case(ctx, case, label, r):
             if kind is not None:
                 report(ctx, case, first, [(k1, t1), (k2, t2)], kind, detail)
         # (c) random 3-switch schedules
-        for _ in range(40 if ctx.thorough else 12):
+        for _ in range(40 if ctx.thorough else 6):
             sw = sorted((r.randint(1, N + 60), r.randrange(n)) for _ in range(3))
             kind, detail, sc2 = judge(case, first, sw, st)
             st.evaluations += 1
@@ -365,7 +369,7 @@ def explore_all_pairs(ctx, case, label):
         N = sc.events
         case['budget'] = 40 * N + 5000
         total = N * (N - 1) // 2
-        cap = 40000 if ctx.thorough else 1000
+        cap = 40000 if ctx.thorough else 300
         if total <= cap:
             pairs = [(k1, k2) for k1 in range(1, N + 1) for k2 in range(k1 + 1, N + 1)]
             st.count('programs_with_exhaustive_double_preemption')
@@ -397,13 +401,12 @@ def report(ctx, case, first, switches, kind, detail):
     ctx.stats.violation(kind, detail, wit)
 
 
-def stress(ctx, r, seconds):
+def stress(ctx, r, nprograms):
     """(d) uncontrolled real threads with a tiny switch interval."""
     st = ctx.stats
-    t_end = time.time() + seconds
-    i = 0
-    while time.time() < t_end and not ctx.out_of_time():
-        i += 1
+    for i in range(nprograms):
+        if ctx.out_of_time():
+            break
         case = gen_case(r, ctx)
         for _rep in range(5):
             kind, detail, _ = judge(case, 0, [], st, free=True)
@@ -418,7 +421,7 @@ def stress(ctx, r, seconds):
 
 
 def run(ctx):
-    nprog = {'quick': 8, 'thorough': 150}[ctx.tier]
+    nprog = {'quick': 3, 'thorough': 150}[ctx.tier]
     try:
         directed = directed_cases()
         if ctx.thorough:
@@ -436,7 +439,7 @@ def run(ctx):
             case = gen_case(r, ctx)
             ctx.stats.count('programs')
             explore_case(ctx, case, 'p%d.%d' % (ctx.shard, i), r)
-        stress(ctx, ctx.rng('stress'), 4 if ctx.tier == 'quick' else 30)
+        stress(ctx, ctx.rng('stress'), 15 if ctx.tier == 'quick' else 1500)
     finally:
         if _monitor is not None:
             _monitor.close()
